@@ -35,7 +35,29 @@ CHECKS = {
  "C17": ("model_checking",
    "Stateless model checking of the implementation: every schedule with <=2 deviations of 0-2 live routes (callback / forwarding, optionally a message in flight) stopped by shutdown() from 1-2 tasks or by dropping the proxy, optionally racing add_route, followed by further sends and a wait for quiescence; oracle: no callback after the stop, every callback dropped exactly once (at shutdown return / at quiescence), forwarding receivers disconnected, late routes never invoked, no panic on any thread, no deadlock.",
    E1NOTE, "controlled-scheduler stateless exploration with deviation bounding (E1)", "DESIGN.md §4 C17"),
+ "C03": ("model_checking",
+   "Explicit-state BFS over the reference model's state graph (clone / drop / send / embed sender / embed receiver / three receive variants / drop receiver / move handle to another thread / to a forked process; canonical-state dedup; 3 channels quick, 4 thorough) with every transition replayed from scratch on the real API and every observable result compared, plus non-destructive disconnection probes; and stateless exploration (<=2/3 deviations) of the final drops racing a blocked, timed or polling receive.",
+   E1NOTE + " The model graph is cut at a depth/state bound (reported, exhaustive=false when cut).", "explicit-state model search with full trace conformance replay on the implementation + controlled-scheduler exploration (E1)", "DESIGN.md §4 C03"),
+ "C06": ("model_checking",
+   "Stateless model checking (<=2 deviations incl. EINTR answers to epoll_wait) of sender tasks racing the selecting task with 2-3 members and a member added after the first select; plus scripted single-task histories (1..12/64 ready members, traffic queued before/after add, all size sequences up to length 2/3 for two members, bursts of 63..150 messages between waits, re-adding after closures) where a select that blocks while an event is pending is an exact deadlock.",
+   E1NOTE, "controlled-scheduler stateless exploration with deviation bounding (E1) + bounded-exhaustive scripted histories", "DESIGN.md §4 C06"),
+ "C09": ("exploration",
+   "Bounded-exhaustive enumeration of send streams (<=3/4 sends, small / 3-packet, plain / with attachments) x drop position x dropper (same thread, other thread, forked process that exits) x how the receiver is held (directly, inside a carrier that is dropped, in transit and unpacked), SIGPIPE at its default disposition, blocked sends detected exactly; plus the drop racing the stream under E1.",
+   E2NOTE, "bounded-exhaustive history enumeration (E2) + controlled-scheduler exploration (E1)", "DESIGN.md §4 C09"),
+ "C10": ("model_checking",
+   "Stateless model checking (<=2/3 deviations, timer firings as explicit alternatives) of try_recv / try_recv_timeout(d) [+ a second call] followed by blocking recv against a sending or dropping task; plus every call sequence of length <=3/4 over {recv, try_recv, try_recv_timeout(d)} x pre-actions, each optionally ended by a blocking recv that must block (exact), with virtual timers and the poll(2) argument checked; 5 real-time lower-bound cases.",
+   E1NOTE, "controlled-scheduler stateless exploration with virtual timers (E1) + bounded-exhaustive call sequences", "DESIGN.md §4 C10"),
+ "C11": ("exploration",
+   "Bounded-exhaustive enumeration of operation sequences (length <=3 quick / 4 thorough over 18 public-API operations incl. failing ones) x drop order, with a descriptor/mapping ledger at the libc boundary in no-reuse numbering mode, /proc/self/fd, /proc/self/maps and temp-root comparison, close-on-exec-at-creation tracking and an exec'ed child that lists what it inherited.",
+   E2NOTE, "bounded-exhaustive operation-sequence enumeration with a libc-boundary resource ledger (E2)", "DESIGN.md §4 C11"),
+ "C12": ("fault_enumeration",
+   "Exhaustive crash-point enumeration with real processes: the sending process is SIGKILLed before its k-th transport system call for every k (0..=N, N measured), message shapes 1..6 packets x attachments x preceding message x surviving sender in another process x observer (blocking recv where due, try_recv, receiver set, router callback); oracle: completed messages intact, interrupted one intact or not a message, 'disconnected' only without survivor, survivor's message arrives, nothing hangs.",
+   E2NOTE, "exhaustive crash-point enumeration at the system-call boundary with real forked processes", "DESIGN.md §4 C12"),
+ "C18": ("exploration",
+   "Memory-safety monitors as oracles over bounded-exhaustive shape sets (C01 boundary windows, C13 ENOBUFS patterns, C15 0..66 attachments, C12 crash indices, regions of every boundary length incl. platform-level zero length): AddressSanitizer build with kernel-boundary range checks re-implemented in the interposer, two allocation fill bytes on the plain build, debug assertions and core ub_checks everywhere.",
+   E2NOTE + " ASan detects only errors on executed paths of the enumerated shapes.", "bounded-exhaustive shape enumeration executed under AddressSanitizer / fill-differential monitors", "DESIGN.md §4 C18"),
 }
+
 
 NOT_YET = "check under construction in this session (see DESIGN.md §4); not yet claimed"
 
